@@ -77,7 +77,7 @@ pub fn hss_expand_aux_data<'a, H: HashChain>(
 
     let mut aux_data = aux_data.unwrap();
 
-    if aux_data[AUX_DATA_MARKER] == NO_AUX_DATA {
+    if !hss_is_aux_data_used(aux_data) {
         return None;
     }
 
@@ -102,6 +102,10 @@ pub fn hss_expand_aux_data<'a, H: HashChain>(
     // Check if data is valid
     if let Some(seed) = seed {
         let len_aux_data = index + layer_sizes.iter().sum::<usize>();
+        // A level word that announces more data than the buffer holds can not be authentic.
+        if len_aux_data > aux_data.len() {
+            return None;
+        }
         let (aux_data, aux_data_mac) = aux_data.split_at(len_aux_data);
 
         let key = compute_seed_derive::<H>(seed);
@@ -150,7 +154,9 @@ pub fn hss_store_aux_marker(aux_data: &mut [u8], aux_level: AuxLevel) {
 }
 
 pub fn hss_is_aux_data_used(aux_data: &[u8]) -> bool {
-    aux_data[AUX_DATA_MARKER] != NO_AUX_DATA
+    aux_data
+        .get(AUX_DATA_MARKER)
+        .map_or(false, |marker| *marker != NO_AUX_DATA)
 }
 
 pub fn hss_save_aux_data<H: HashChain>(
